@@ -14,7 +14,7 @@ Quantifiers: every finite history `ops : List Op` — any number of connections,
 every WebSocket/plain start, every early exit, every message, every I/O failure annotation
 (`Fail.rd` / `Fail.wr` on any connection at any message: EOF, reset and timeout all reach the code
 as "the read/write failed"), every set of acquired resources (`Res` is arbitrary), callbacks closing
-any client, shutdown and cleanup at any point — and every `Variant` of the code (which of the seven
+any client, shutdown and cleanup at any point — and every `Variant` of the code (which of the eight
 known defects are fixed).
 
 What the theorems say
@@ -74,9 +74,9 @@ theorem exactly_once (ops : List Op) (i : Nat) (c : Conn)
 theorem nothing_lost (ops : List Op) :
     let w := after Variant.fixed ops
     w.nbLost = 0 ∧ w.recLost = 0 ∧ w.shutLeft = 0 ∧ w.wsLostGone = 0 ∧ w.wsLostHs = 0 ∧
-    w.stray = 0 ∧ w.extLost = 0 ∧ w.extDataLost = 0 := by
-  obtain ⟨k1, k2, k3, k4, k5, k6, k7⟩ := (inv_after Variant.fixed ops).counters
-  exact ⟨k1 rfl, (k2 rfl).1, (k2 rfl).2, k3 rfl, k4 rfl, k5 rfl, k6 rfl, k7 rfl⟩
+    w.stray = 0 ∧ w.extLost = 0 ∧ w.extDataLost = 0 ∧ w.extNodeLost = 0 := by
+  obtain ⟨k1, k2, k3, k4, k5, k6, k7, k8⟩ := (inv_after Variant.fixed ops).counters
+  exact ⟨k1 rfl, (k2 rfl).1, (k2 rfl).2, k3 rfl, k4 rfl, k5 rfl, k6 rfl, k7 rfl, k8 rfl⟩
 
 /-- **at most once** — for every variant of the code, in particular the code as found -/
 theorem at_most_once (v : Variant) (ops : List Op) (i : Nat) (c : Conn)
@@ -122,10 +122,11 @@ theorem each_fix_suffices (v : Variant) (ops : List Op) :
     (v.wsOnePath = true → w.wsLostHs = 0) ∧
     (v.ftClose = true → w.stray = 0) ∧
     (v.extFree = true → w.extLost = 0) ∧
-    (v.goneExtClose = true → w.extDataLost = 0) := by
+    (v.goneExtClose = true → w.extDataLost = 0) ∧
+    (v.disableFree = true → w.extNodeLost = 0) := by
   have hinv := inv_after v ops
-  obtain ⟨k1, k2, k3, k4, k5, k6, k7⟩ := hinv.counters
-  refine ⟨?_, k2, k3, k4, k5, k6, k7⟩
+  obtain ⟨k1, k2, k3, k4, k5, k6, k7, k8⟩ := hinv.counters
+  refine ⟨?_, k2, k3, k4, k5, k6, k7, k8⟩
   intro hv
   refine ⟨k1 hv, ?_⟩
   intro i c hc hi
@@ -301,6 +302,26 @@ theorem defect_cleanup_extension_close_skipped :
     (after Variant.current extcloseTrace).extDataLost = 1 ∧
     (after Variant.fixed extcloseTrace).extDataLost = 0 ∧
     (after Variant.fixed extcloseTrace).log.filter (· == .xclose 0 true) = [.xclose 0 true] := by decide
+
+/-- extdis.ops — an extension whose init hook answers "remove me" at ClientInit (or that the
+application disables with `rfbDisableExtension`): the data is freed, the list node is unlinked and
+never freed (found in round 2 by a seeder, confirmed here) -/
+def extdisTrace : List Op :=
+  [.ext, .conn .accept 0 false .none, .extRefuse 0, .send 0 .ver [] [], .send 0 .sec [] [],
+   .send 0 (.init true) [] [], .closePeer 0 [] [], .shutdown, .cleanup]
+theorem defect_disable_extension_node_leak :
+    (after Variant.current extdisTrace).extNodeLost = 1 ∧
+    (after Variant.fixed extdisTrace).extNodeLost = 0 ∧
+    (after Variant.fixed extdisTrace).conns.map (fun c => (c.exts, c.extData, c.freed)) = [(0, false, true)] := by
+  decide
+
+/-- enabling and disabling an extension any number of times during a client's life loses nothing and
+leaves nothing behind (instance of `nothing_lost` / `exactly_once`, spelled out for the API pair) -/
+theorem extension_toggle_clean (ops : List Op) (i : Nat) (n : Nat) :
+    let w := after Variant.fixed (ops ++ (List.replicate n [Op.extDrop i, Op.extAdd i]).flatten)
+    w.extNodeLost = 0 ∧ w.extDataLost = 0 ∧ w.extLost = 0 := by
+  have := nothing_lost (ops ++ (List.replicate n [Op.extDrop i, Op.extAdd i]).flatten)
+  exact ⟨this.2.2.2.2.2.2.2.2, this.2.2.2.2.2.2.2.1, this.2.2.2.2.2.2.1⟩
 
 /-- hence the full-strength statement is false for the code as found -/
 theorem exactly_once_false_for_current :
